@@ -137,13 +137,12 @@ Example C20_break_inside_literal_alters_it :
   fst (run init_term false (str "select 'a" ++ br ++ str "b';" ++ br)) = [Line [str "select 'a b';"] false].
 Proof. vm_compute. reflexivity. Qed.
 
-(* FINDING (outside the ReadLine observation point; runTerminal is modelled by hand, see
-   Spec/ConsoleSpec.v handed_to_engine): a line that is pasted entirely, Enter included, between
-   ESC[200~ and ESC[201~ is returned by ReadLine together with ErrPasteIndicator; runTerminal
-   treats that as a fatal error, so the statement is never executed and the console exits.
-   The Go driver confirms the ReadLine half (statement returned with the paste indicator). *)
-Example C20_pasted_line_dropped_by_runTerminal :
+(* runTerminal (modelled by hand, see Spec/ConsoleSpec.v handed_to_engine): a line that is pasted
+   entirely, Enter included, between ESC[200~ and ESC[201~ is returned by ReadLine together with
+   ErrPasteIndicator. Before fix commit 0ba2bad runTerminal treated that as a fatal error (the
+   statement was never executed and the console exited); now it is handed to the engine. *)
+Example C20_pasted_line_reaches_engine :
   let ks := keyPasteStart :: str "select 1;" ++ br ++ [keyPasteEnd] in
   fst (run init_term false ks) = [Line [str "select 1;"] true] /\
-  handed_to_engine (fst (run init_term false ks)) = [].
+  handed_to_engine (fst (run init_term false ks)) = [str "select 1;"].
 Proof. vm_compute. split; reflexivity. Qed.
